@@ -235,8 +235,9 @@ func (s *clusterState) UpsertLocal(key, value string) {
 
 	existing, ok := state.Entries[key]
 	if ok {
-		// If the entry is unchanged do nothing.
-		if existing.Value == value {
+		// If the entry is unchanged do nothing. A deleted entry always
+		// changes, as it must be re-created (even with an empty value).
+		if existing.Value == value && !existing.Deleted {
 			return
 		}
 	}
